@@ -1532,20 +1532,26 @@ package decimal128
 // ASCII digits, no leading and no trailing zero, sign copied, exponent within the format's range
 // plus the stripped zeros. (That the digits denote the coefficient is not part of this contract.)
 //@ func Decimal.digits
-//@ requires !special(d)
+//@ uses rssteps=1,2 rsmono=0
+//@ logical V real
+//@ requires !special(d) && V >= 0 && rs(V, bexp(d)) == coef(d)
 //@ ensures digs.neg == sign(d) && 0 <= digs.ndig && digs.ndig <= 39 && (coef(d) == 0 ==> digs.ndig == 0 && digs.exp == 0) && (coef(d) != 0 ==> digs.ndig >= 1)
 //@ ensures forall k in 0..38: k < digs.ndig ==> 48 <= digs.dig[k] && digs.dig[k] <= 57
 //@ ensures forall k in 1..39: digs.ndig == k ==> digs.dig[k - 1] != 48
 //@ ensures digs.ndig >= 1 ==> digs.dig[0] != 48
 //@ ensures coef(d) != 0 ==> digs.exp >= bexp(d) - 6176 && digs.exp <= bexp(d) - 6176 + 39
+//@ ensures forall m in 1..38: digs.ndig == m ==> rs(V, digs.exp + 6176) == sum k in 0..37: ite(k < m, (digs.dig[k] - 48) * p10(m - 1 - k), 0)
 //@ loop 1: invariant digs.neg == sign(d) && 0 <= n && n <= 38 && digs.exp >= bexp(d) - 6176 && (forall k in 0..38: k < n ==> 48 <= digs.dig[k] && digs.dig[k] <= 57) && (n >= 1 ==> digs.dig[0] != 48) && u128(sig) != 0
 //@ loop 1: invariant (n <= 0 && digs.exp <= bexp(d) - 6176 + 0 && u128(sig) <= 12980742146337069071326240823050239) || (n <= 2 && digs.exp <= bexp(d) - 6176 + 2 && u128(sig) <= 129807421463370690713262408230502) || (n <= 4 && digs.exp <= bexp(d) - 6176 + 4 && u128(sig) <= 1298074214633706907132624082305) || (n <= 6 && digs.exp <= bexp(d) - 6176 + 6 && u128(sig) <= 12980742146337069071326240823) || (n <= 8 && digs.exp <= bexp(d) - 6176 + 8 && u128(sig) <= 129807421463370690713262408) || (n <= 10 && digs.exp <= bexp(d) - 6176 + 10 && u128(sig) <= 1298074214633706907132624) || (n <= 12 && digs.exp <= bexp(d) - 6176 + 12 && u128(sig) <= 12980742146337069071326) || (n <= 14 && digs.exp <= bexp(d) - 6176 + 14 && u128(sig) <= 129807421463370690713) || (n <= 16 && digs.exp <= bexp(d) - 6176 + 16 && u128(sig) <= 1298074214633706907)
+//@ loop 1: invariant forall m in 0..37: n == m ==> rs(V, digs.exp + 6176) == u128(sig) * p10(m) + sum k in 0..36: ite(k < m, (digs.dig[k] - 48) * p10(k), 0)
 //@ loop 1: decreases u128(sig)
 //@ loop 2: invariant digs.neg == sign(d) && 0 <= n && n <= 38 && digs.exp >= bexp(d) - 6176 && (forall k in 0..38: k < n ==> 48 <= digs.dig[k] && digs.dig[k] <= 57) && (n >= 1 ==> digs.dig[0] != 48)
 //@ loop 2: invariant (forall k in 1..38: (n == k && sig64 == 0) ==> digs.dig[k - 1] != 48) && (sig64 == 0 ==> n >= 1)
 //@ loop 2: invariant (n <= 16 && digs.exp <= bexp(d) - 6176 + 16 && sig64 < 100000000000000000000) || (n <= 18 && digs.exp <= bexp(d) - 6176 + 18 && sig64 < 1000000000000000000) || (n <= 20 && digs.exp <= bexp(d) - 6176 + 20 && sig64 < 10000000000000000) || (n <= 22 && digs.exp <= bexp(d) - 6176 + 22 && sig64 < 100000000000000) || (n <= 24 && digs.exp <= bexp(d) - 6176 + 24 && sig64 < 1000000000000) || (n <= 26 && digs.exp <= bexp(d) - 6176 + 26 && sig64 < 10000000000) || (n <= 28 && digs.exp <= bexp(d) - 6176 + 28 && sig64 < 100000000) || (n <= 30 && digs.exp <= bexp(d) - 6176 + 30 && sig64 < 1000000) || (n <= 32 && digs.exp <= bexp(d) - 6176 + 32 && sig64 < 10000) || (n <= 34 && digs.exp <= bexp(d) - 6176 + 34 && sig64 < 100) || (n <= 36 && digs.exp <= bexp(d) - 6176 + 36 && sig64 < 1)
+//@ loop 2: invariant forall m in 0..37: n == m ==> rs(V, digs.exp + 6176) == sig64 * p10(m) + sum k in 0..36: ite(k < m, (digs.dig[k] - 48) * p10(k), 0)
 //@ loop 2: decreases sig64
 //@ loop 3: invariant digs.neg == sign(d) && 1 <= n && n <= 38 && digs.exp >= bexp(d) - 6176 && digs.exp <= bexp(d) - 6176 + 38 && (forall k in 0..38: k < n ==> 48 <= digs.dig[k] && digs.dig[k] <= 57)
 //@ loop 3: invariant 0 <= i && i + j == n - 1 && digs.dig[0] != 48 && (forall k in 1..38: n == k ==> digs.dig[k - 1] != 48)
+//@ loop 3: invariant forall m in 1..38: n == m ==> rs(V, digs.exp + 6176) == sum k in 0..37: ite(k < m, ite(k < i || k > j, (digs.dig[k] - 48) * p10(m - 1 - k), (digs.dig[k] - 48) * p10(k)), 0)
 //@ loop 3: decreases j - i + 1
 //@ props C06 C07 C20
